@@ -930,7 +930,79 @@ func expectSyn(opts []gopt, isAck bool) header.TCPSynOptions {
 	return e
 }
 
+// sackEncoder: EncodeSACKBlocks for 0..6 blocks into destinations of every length 0..50
+// (an option area that is nearly or entirely used up included): as many whole blocks as
+// fit, nothing at all if none fits, nothing outside the destination.
+func sackEncoder() {
+	r := fw.NewRand(run.Seed, "C15", "sackenc")
+	for nb := 0; nb <= 6; nb++ {
+		for room := 0; room <= 50; room++ {
+			var bl []header.SACKBlock
+			var want []byte
+			fit := 0
+			if room >= 2 {
+				fit = (room - 2) / 8
+			}
+			if fit > nb {
+				fit = nb
+			}
+			if fit > 4 {
+				fit = 4
+			}
+			for i := 0; i < nb; i++ {
+				a, b := r.U32(), r.U32()
+				bl = append(bl, header.SACKBlock{Start: seqnum.Value(a), End: seqnum.Value(b)})
+				if i < fit {
+					want = append(want, byte(a>>24), byte(a>>16), byte(a>>8), byte(a), byte(b>>24), byte(b>>16), byte(b>>8), byte(b))
+				}
+			}
+			if fit > 0 {
+				want = append([]byte{5, byte(2 + 8*fit)}, want...)
+			}
+			frame := bytes.Repeat([]byte{0xEE}, room+8)
+			dst := frame[:room:room]
+			n, msg := 0, ""
+			func() {
+				defer func() {
+					if x := recover(); x != nil {
+						msg = fmt.Sprintf("panic: %v", x)
+					}
+				}()
+				n = header.EncodeSACKBlocks(bl, dst)
+			}()
+			rep := map[string]interface{}{"blocks": nb, "room": room}
+			run.Case(fw.Hash("sackenc", nb, room), true)
+			switch {
+			case msg != "":
+				bad("tcpopt/EncodeSACKBlocks", fmt.Sprintf("%d blocks into a destination of %d bytes: %s", nb, room, msg), rep)
+				return
+			case n != len(want) || !bytes.Equal(dst[:len(want)], want):
+				bad("tcpopt/EncodeSACKBlocks", fmt.Sprintf("%d blocks into a destination of %d bytes: returned %d, wrote %x; %d blocks fit: want %d bytes %x", nb, room, n, dst[:minI(n, room)], fit, len(want), want), rep)
+				return
+			}
+			for i := len(want); i < len(frame); i++ {
+				if frame[i] != 0xEE {
+					bad("tcpopt/EncodeSACKBlocks", fmt.Sprintf("%d blocks into a destination of %d bytes: byte %d, outside the %d bytes reported as written, was changed to %#x", nb, room, i, len(want), frame[i]), rep)
+					return
+				}
+			}
+		}
+	}
+	run.Count("sack_encoder_cases", 7*51)
+}
+
+func minI(a, b int) int {
+	if a < 0 {
+		return 0
+	}
+	if a < b {
+		return a
+	}
+	return b
+}
+
 func tcpOptions() {
+	sackEncoder()
 	// (a) every sequence of up to 4 options from the alphabet, encoded by the
 	// repo's encoders and by rfc's, parsed by both parsers.
 	alpha := 7
